@@ -11,10 +11,11 @@ using vf::S;
 struct Wrap { long from; int how; Wrap() : from(0), how(0) {}
   Wrap(const vf::V& v) : from(v.id), how(1) {} Wrap(vf::V&& v) : from(v.id), how(2) { vf::V t(std::move(v)); }
   Wrap(vf::MV&& v) : from(v.id), how(3) { vf::MV t(std::move(v)); } };
-template<class T> struct Cont { std::vector<T> items; static inline long copies = 0; long tag;
-  explicit Cont(long t) : tag(t) {} Cont(const Cont& o) : items(o.items), tag(o.tag) { ++copies; } Cont(Cont&& o) noexcept : items(std::move(o.items)), tag(o.tag) { o.tag = -o.tag; }
+// NX = false: a container whose move constructor may throw (hand-written lists, std::deque-like types)
+template<class T, bool NX = true> struct Cont { std::vector<T> items; static inline long copies = 0; long tag;
+  explicit Cont(long t) : tag(t) {} Cont(const Cont& o) : items(o.items), tag(o.tag) { ++copies; } Cont(Cont&& o) noexcept(NX) : items(std::move(o.items)), tag(o.tag) { o.tag = -o.tag; }
   void push_back(const T& v) { items.push_back(v); } void emplace_back(T&& v) { items.emplace_back(std::move(v)); } };
-static void begin() { S.reset(); S.copies = 0; S.moves = 0; Cont<vf::V>::copies = 0; Cont<vf::MV>::copies = 0; }
+static void begin() { S.reset(); S.copies = 0; S.moves = 0; Cont<vf::V>::copies = 0; Cont<vf::MV>::copies = 0; Cont<vf::V, false>::copies = 0; }
 #define REP(name, n, k, c, cat, ok) std::printf("H %s %d %d %d %s %d %ld %ld", name, n, k, c, cat, int(ok), S.copies, S.moves)
 int main() {
 '''
@@ -62,9 +63,13 @@ def emit(n):
                     for fn in ('push_back', 'emplace_back'):
                         if fn == 'push_back' and cat == 'mo': continue
                         args = ', '.join(('std::move(cc)' if i == c else 'std::move(a%d)' % i) for i in range(1, n + 1))
+                        # the result is consumed the way the parser does it: the left-side value is constructed from what the functor returns
+                        cty = ty if (cat == 'mo' or (c + a + n) % 2) else ty + ', false'
                         o.append('{ begin(); %s Cont<%s> cc(7); auto&& r = %s<%d, %d>{}(%s); '
-                                 'REP("%s", %d, %d, %d, "%s", (&r == &cc) && cc.tag == 7 && cc.items.size() == 1 && (cc.items[0].id == %d) && Cont<%s>::copies == 0); %s std::printf("\\n"); }' % (
-                                     decl(n, ty, skip=(c,)), ty, fn, c, a, args, fn, n, a, c, cat, 100 + a, ty, ids(n, skip=(c,))))
+                                 'bool ok1 = (&r == &cc) && cc.tag == 7 && cc.items.size() == 1 && (cc.items[0].id == %d) && Cont<%s>::copies == 0; '
+                                 'Cont<%s> taken(std::forward<decltype(r)>(r)); '
+                                 'REP("%s", %d, %d, %d, "%s", (ok1 && Cont<%s>::copies == 0 && taken.items.size() == 1 && taken.tag == 7)); %s std::printf("\\n"); }' % (
+                                     decl(n, ty, skip=(c,)), cty, fn, c, a, args, 100 + a, cty, cty, fn, n, a, c, cat, cty, ids(n, skip=(c,))))
                         expect.append((fn, n, a, c, cat))
     return o, expect
 
